@@ -5,7 +5,7 @@
 (* A result record is [k |-> "ok" | "exc", v |-> runs, t |-> exception    *)
 (* class, n |-> len(result), s |-> result.s]                              *)
 (***************************************************************************)
-EXTENDS ColorStr, FmtImpl
+EXTENDS ColorStr, FmtImpl, Spelling, Parse, Scan
 
 V(clause, exact) == <<IF clause = "ok" THEN "ok" ELSE "fail", IF clause = "ok" THEN "" ELSE clause,
                       IF exact THEN "exact" ELSE "drift">>
@@ -50,6 +50,92 @@ JudgeAppend(e) ==
   LET j == JudgeValue("Append", e.res, AbsAppend(Cells(e.f), Cells(e.new.v)), ImplAppend(e.f, e.new.v))
   IN IF j[1] = "ok" /\ e.f2 # e.f THEN V("Append.OperandChanged", FALSE) ELSE j
 
+
+(* ---------------------------------------------------------------- C14 *)
+Lowered(items) == [j \in 1..Len(items) |-> [items[j] EXCEPT !.name = items[j].lname]]
+ApplyRuns(f, m) == [k \in 1..Len(f) |-> <<f[k][1], ApplyAtts(f[k][2], m)>>]
+
+\* fold the steps: <<status, runs, caseOnly>>; status "ok" | "invalid"
+RECURSIVE StepsFrom(_, _, _, _)
+StepsFrom(steps, j, f, caseOnly) ==
+  IF j > Len(steps) THEN <<"ok", f, caseOnly>>
+  ELSE LET low == Lowered(steps[j].items)
+       IN IF SpecInvalid(low) THEN <<"invalid", f, caseOnly>>
+          ELSE StepsFrom(steps, j + 1, ApplyRuns(f, SpecMap(low)), caseOnly \/ SpecInvalid(steps[j].items))
+
+JudgeApply(e) ==
+  LET r == StepsFrom(e.steps, 1, e.base.v, FALSE)
+  IN IF r[1] = "invalid"
+     THEN IF e.res.k = "exc" /\ e.res.t = "ValueError" THEN V("ok", TRUE)
+          ELSE IF e.res.k = "exc" THEN V("Apply.InvalidWrongError", FALSE) ELSE V("Apply.InvalidAccepted", FALSE)
+     ELSE IF r[3] /\ e.res.k = "exc" /\ e.res.t = "ValueError" THEN V("ok", FALSE)   \* case variant rejected: allowed
+     ELSE JudgeValue("Apply", e.res, Cells(r[2]), r[2])
+
+NameSet(names) == {i \in AttIdx : \E j \in 1..Len(names) : names[j] = <<"fg", "bg", "bold", "dark", "italic", "underline", "blink", "invert">>[i]}
+JudgeRemove(e) ==
+  JudgeValue("Remove", e.res, AbsRemoveCells(e.f, NameSet(e.names)),
+             [k \in 1..Len(e.f) |-> <<e.f[k][1], [i \in AttIdx |-> IF i \in NameSet(e.names) THEN 0 ELSE e.f[k][2][i]]>>])
+
+\* weakest reading of "uniformly formatted": every run (empty ones included) has the same display attributes
+UniformRuns(f) == f # <<>> /\ \A k \in 1..Len(f) : Disp(f[k][2]) = Disp(f[1][2])
+JudgeNewStr(e) ==
+  IF e.res.k # "ok" THEN V("NewStr.Raised", FALSE)
+     ELSE IF Text(e.res.v) # e.t THEN V("NewStr.Text", FALSE)
+     ELSE IF UniformRuns(e.f) /\ Cells(e.res.v) # [i \in 1..Len(e.t) |-> <<e.t[i], Disp(e.f[1][2])>>] THEN V("NewStr.Formatting", FALSE)
+     ELSE IF ~Consistent(e.res) THEN V("NewStr.LenText", FALSE)
+     ELSE V("ok", TRUE)
+
+\* shared_atts: m[i] = 0 not reported, else 1 + raw value code; every character must have it (display level)
+JudgeShared(e) ==
+  LET cs == Cells(e.f)
+  IN IF e.k = "exc" THEN V("ok", FALSE)     \* nothing reported
+     ELSE IF \E i \in AttIdx : e.m[i] # 0 /\ \E k \in 1..Len(cs) :
+                  cs[k][2][i] # (IF i <= 2 THEN e.m[i] - 1 ELSE IF e.m[i] - 1 = 2 THEN 1 ELSE 0)
+          THEN V("Shared.NotShared", FALSE)
+     ELSE V("ok", TRUE)
+
+(* ---------------------------------------------------------------- C19 *)
+JudgeEq(e) ==
+  LET same == e.strx = e.stry
+      b(x) == IF x THEN 1 ELSE 0
+  IN IF e.eq # b(same) THEN V("Eq.ExactlyWhenSameTerminalString", FALSE)
+     ELSE IF e.req # e.eq THEN V("Eq.Symmetric", FALSE)
+     ELSE IF e.ne # 1 - e.eq THEN V("Eq.NeIsNotEq", FALSE)
+     ELSE IF e.eq = 1 /\ e.heq # 1 THEN V("Eq.HashCoherent", FALSE)
+     ELSE IF e.inset # e.eq THEN V("Eq.SetMembership", FALSE)
+     ELSE IF e.indict # e.eq THEN V("Eq.DictKey", FALSE)
+     ELSE V("ok", TRUE)
+
+JudgeRepr(e) ==
+  IF e.shape # 1 THEN V("Repr.NotAnExpressionOverFmtfuncs", FALSE)
+  ELSE IF e.ev.k # "ok" THEN V("Repr.DoesNotEvaluate", FALSE)
+  ELSE IF Cells(e.ev.v) # Cells(e.f) THEN V("Repr.RoundTrip", FALSE)
+  ELSE V("ok", TRUE)
+
+(* ---------------------------------------------------------------- C05 *)
+JudgeRoundTrip(e) ==
+  IF e.res.k # "ok" THEN V("RoundTrip.Raised", FALSE)
+  ELSE IF Cells(e.res.v) # Cells(e.f) THEN V("RoundTrip.Cells", FALSE)
+  ELSE IF ~Consistent(e.res) THEN V("RoundTrip.LenText", FALSE)
+  ELSE V("ok", e.res.v = ImplParse(e.toks))
+JudgeParse(e) ==
+  IF ~InGrammar(e.toks) THEN V("Parse.NotInGrammar", FALSE)
+  ELSE JudgeValue("Parse", e.res, AbsParseCells(e.toks), ImplParse(e.toks))
+
+(* ---------------------------------------------------------------- C17 *)
+Unformatted(f) == \A k \in 1..Len(f) : f[k][2] = NoAtts
+JudgeAny(e) ==
+  IF e.res.k # "ok" THEN V("Any.Raised", FALSE)
+  ELSE IF ~HasIntro(e.s) THEN
+       (IF e.res.s # e.s THEN V("Any.PlainVerbatim", FALSE)
+        ELSE IF ~Unformatted(e.res.v) THEN V("Any.PlainUnformatted", FALSE)
+        ELSE V("ok", TRUE))
+  ELSE IF ~IsSubseq(e.res.s, e.s) THEN V("Any.OnlyRemoves", FALSE)
+  ELSE IF ~IsSubseq(MustKeep(e.s), e.res.s) THEN V("Any.KeepsOrdinaryText", FALSE)
+  ELSE IF OrdinaryCsi(e.s) /\ e.res.s # Strip(e.s) THEN V("Any.OrdinaryCsiStripped", FALSE)
+  ELSE IF ~Consistent(e.res) THEN V("Any.LenText", FALSE)
+  ELSE V("ok", TRUE)
+
 Judge(e) ==
   CASE e.op = "str" -> JudgeStr(e)
     [] e.op = "slice" -> JudgeSlice(e)
@@ -59,5 +145,14 @@ Judge(e) ==
     [] e.op = "join" -> JudgeJoin(e)
     [] e.op = "splice" -> JudgeSplice(e)
     [] e.op = "append" -> JudgeAppend(e)
+    [] e.op = "apply" -> JudgeApply(e)
+    [] e.op = "remove" -> JudgeRemove(e)
+    [] e.op = "newstr" -> JudgeNewStr(e)
+    [] e.op = "shared" -> JudgeShared(e)
+    [] e.op = "roundtrip" -> JudgeRoundTrip(e)
+    [] e.op = "parse" -> JudgeParse(e)
+    [] e.op = "any" -> JudgeAny(e)
+    [] e.op = "eq" -> JudgeEq(e)
+    [] e.op = "repr" -> JudgeRepr(e)
     [] OTHER -> <<"fail", "UnknownOp", "drift">>
 =============================================================================
